@@ -108,8 +108,13 @@ OracleRejects ==
     /\ Clauses(Bad([r EXCEPT !.rfc_a.header = Item(<<97>>), !.rfc_b.header = Item(<<97>>)], r)) = {"C16.Rfc822SameAsBody"}
     /\ Clauses(Bad([r EXCEPT !.sentFields = <<<<"subject", "a">>, <<"to", "b">>>>,
                              !.fields = <<<<"to", "b">>, <<"subject", "a">>>>], r)) = {}
-    /\ Clauses(Bad([r EXCEPT !.sentFields = <<<<"subject", "a">>, <<"to", "b">>>>,
-                             !.fields = <<<<"to", "b">>, <<"subject", "A">>>>], r)) = {"C16.SameHeaderFields"}
+    /\ Bad([r EXCEPT !.sentFields = <<<<"subject", "a">>, <<"to", "b">>>>,
+                      !.fields = <<<<"to", "b">>, <<"subject", "A">>>>,
+                      !.sentFieldsNoWS = <<<<"subject", "a">>, <<"to", "b">>>>,
+                      !.fieldsNoWS = <<<<"to", "b">>, <<"subject", "A">>>>], r) = {<<"C16.SameHeaderFields", "append:value">>}
+    /\ Bad([r EXCEPT !.sentFields = <<<<"subject", "a b">>>>, !.fields = <<<<"subject", "ab">>>>,
+                      !.sentFieldsNoWS = <<<<"subject", "ab">>>>, !.fieldsNoWS = <<<<"subject", "ab">>>>], r)
+           = {<<"C16.SameHeaderFields", "append:white-space">>}
     /\ Clauses(Bad([r EXCEPT !.sentFields = <<<<"received", "a">>, <<"received", "a">>, <<"received", "b">>>>,
                              !.fields = <<<<"received", "a">>, <<"received", "b">>, <<"received", "b">>>>], r))
            = {"C16.SameHeaderFields"}
